@@ -158,8 +158,8 @@ pub fn registry() -> Vec<Entry> {
         entry::<c16::C16>(
             "C16",
             400,
-            800_000,
-            12_000_000,
+            400_000,
+            10_000_000,
             "parse-clean arbitrary programs with 1-2 injected CFG-level faults of 12 kinds (undefined label in j/branch/call/la/load, several undefined labels, duplicate code/function label, label at end of file as jump target or unused, function without return (infinite loop / exit inside), call to a data label), optionally cut into an included file. Required: undefined/duplicate labels give an error naming the label located at a use/definition of it; any other error that stops the analysis is specific (not 'unexpected'/'assertion'), attached to a user file and has a non-empty location. Non-trivial = at least one fault injected (tabulated per kind).",
             &["when undefined and duplicate labels occur together one correctly located error is accepted (analysis stops at the first)", "a combined error for several undefined labels is accepted when it is located at an occurrence of one of them"],
         ),
